@@ -1119,10 +1119,68 @@ def fam_reuse_prefix_collision(rng, fixed=None):
     return _reuse(rng, 'reuse-prefix-collision', dict(b=b, count=b.count(300 if fixed else None), bodies=bodies), 'members %s are a prefix of %s with the same key' % (P, tags))
 
 
+def fam_reuse_nested_samekey(rng, b=None, depth=None, kind=None):
+    """the outer definitions (and, at depth 3, the middle ones) are identical; only the INNERMOST nested groups differ, and only in what the
+    structural key ignores (member order, a mandatory flag) or by a manufactured key collision - the comparison on a key hit has to
+    descend to every level (missed seeds C13-3: nested groups compared by key only; C14-3: members compared two levels deep only)"""
+    b = b or Builder(rng, 'reuse-nested-samekey')
+    depth = depth or rng.choice((2, 3))
+    kind = kind or rng.choice(('order', 'flag', 'collision'))
+    if kind == 'collision':
+        for _ in range(400):
+            xs = sorted(rng.sample(range(5000, 5400), 1))
+            ys = sorted({t ^ rng.randrange(1, 8) for t in xs})
+            x = rng.randrange(max(xs) + 1, 9000)
+            y = partner(xs, ys, x)
+            tags = xs + [x] + ys + [y]
+            if len(ys) == len(xs) and len(set(tags)) == len(tags) and max(ys) < y < 65536 and not (set(tags) & RESERVED):
+                break
+        else:
+            kind = 'order'
+    if kind == 'collision':
+        n1 = [b.field(rng.choice(['INT', 'STRING', 'CHAR']), '', tag=t) for t in xs + [x]]
+        n2 = [b.field(rng.choice(['INT', 'STRING', 'CHAR']), '', tag=t) for t in ys + [y]]
+        i1 = [('f', f, 'Y' if i == 0 else 'N') for i, f in enumerate(n1)]
+        i2 = [('f', f, 'Y' if i == 0 else 'N') for i, f in enumerate(n2)]
+    else:
+        fs = [b.field(rng.choice(['INT', 'STRING', 'CHAR']), '') for _ in range(rng.randrange(2, 4))]
+        i1 = [('f', f, 'Y') for f in fs]
+        if kind == 'order':
+            i2 = list(reversed(i1))
+        else:
+            i2 = [i1[0]] + [(e[0], e[1], 'N') for e in i1[1:]]
+    if rng.random() < 0.5:
+        i1, i2 = i2, i1
+    bodies = [i1, i2]
+    for level in range(depth - 1):
+        lead = b.field('INT', '')
+        other = b.field('STRING', '')
+        cnt = b.count()
+        r = req(rng)
+        bodies = [[('f', lead, 'Y'), ('f', other, r), ('g', cnt, 'N', body)] for body in bodies]
+    return _reuse(rng, 'reuse-nested-samekey', dict(b=b, count=b.count(), bodies=bodies), 'depth %d, innermost groups differ by %s only' % (depth, kind))
+
+
 VALID_REUSE = [fam_reuse_identical, fam_reuse_distinct, fam_reuse_overlap, fam_reuse_nested_only, fam_reuse_boundary]
 # equal-key families: the fixed f8c must generate every definition separately (before the fix: known finding group-hash-collision)
-KNOWN_REUSE = [fam_reuse_order, fam_reuse_flag, fam_reuse_component, fam_reuse_collision, fam_reuse_prefix_collision]
+KNOWN_REUSE = [fam_reuse_order, fam_reuse_flag, fam_reuse_component, fam_reuse_collision, fam_reuse_prefix_collision, fam_reuse_nested_samekey]
 SAMEKEY_REUSE = KNOWN_REUSE
+
+
+def _nested_d3_collision(rng, b=None):
+    return fam_reuse_nested_samekey(rng, b, depth=3, kind='collision')
+
+
+def _nested_d2_order(rng, b=None):
+    return fam_reuse_nested_samekey(rng, b, depth=2, kind='order')
+
+
+def _nested_d3_flag(rng, b=None):
+    return fam_reuse_nested_samekey(rng, b, depth=3, kind='flag')
+
+
+# every family that can share one schema (separate count fields): the valid ones, the equal-key ones and the nested equal-key ones
+MULTI_ALL = VALID_REUSE + [fam_reuse_order, fam_reuse_flag, fam_reuse_component, _nested_d3_collision, _nested_d2_order, _nested_d3_flag]
 
 
 # ------------------------------------------------------------------------------------------------
